@@ -391,3 +391,25 @@ mutant("M09d", "C09", "yamlpath/processor.py",
                         next_translated_path = (""",
        "creating a key in a hash with more than three keys moves the first "
        "existing key to the end (existing key order changes)")
+
+mutant("M16i", "C16", "yamlpath/commands/yaml_merge.py",
+       """    document_is_json = (
+        docs[0].prepare_for_dump(yaml_editor, args.output)
+        is OutputDocTypes.JSON)
+
+    dumps = []
+    for doc in docs:
+        doc.prepare_for_dump(yaml_editor, args.output)
+        dumps.append(doc.data)
+""",
+       """    document_is_json = False
+    dumps = []
+    for doc in docs:
+        document_is_json = (
+            doc.prepare_for_dump(yaml_editor, args.output)
+            is OutputDocTypes.JSON)
+        dumps.append(doc.data)
+""",
+       "yaml-merge's automatic output format follows the LAST document "
+       "instead of the first (port of seeded change S16d to the repaired "
+       "write_output_document)")
